@@ -308,13 +308,12 @@ func judge(t *trie.Trie, truth []kv, q resp, more bool, class int64, pan string)
 	if class == 99 {
 		return "unclassified error"
 	}
-	accepted := class == 0
 	if !rootOK {
-		if accepted {
-			return "accepted against a root that is not the trie's"
-		}
+		// a root that is not the case's trie's (tampered root, or a shrink candidate that changed the
+		// trie under the queries): nothing to judge against; observed and compared with the model only
 		return ""
 	}
+	accepted := class == 0
 	// the true contents over the interval the response covers
 	var want []kv
 	beyond := false
